@@ -13,6 +13,7 @@ import (
 	"github.com/relex/gotils/logger"
 	"github.com/relex/slog-agent/base"
 	"github.com/relex/slog-agent/base/bconfig"
+	"github.com/relex/slog-agent/defs"
 	"github.com/relex/slog-agent/output/fluentdforward"
 	"github.com/relex/slog-agent/rewrite/rcopy"
 	"github.com/relex/slog-agent/rewrite/rinline"
@@ -97,6 +98,8 @@ func (s *serComp) Impl(c Case) []string {
 	var cfg serCfg
 	var schema base.LogSchema
 	var ser base.LogSerializer
+	var alloc *base.LogAllocator
+	defs.InputLogMinRecordBytesToPool = 0
 	for i, o := range c.Ops {
 		out[i] = func() (res string) {
 			defer func() {
@@ -112,13 +115,24 @@ func (s *serComp) Impl(c Case) []string {
 				if err != nil {
 					return "reject"
 				}
+				alloc = base.NewLogAllocator(schema, 1)
 				return "ok"
 			case "ser rec":
-				fields := make(base.LogFields, len(o.Bytes))
-				for j, b := range o.Bytes {
-					fields[j] = string(b)
+				// the record is built like a parsed one: its field values are substrings of one pooled buffer which the
+				// next record reuses after this one is released
+				var input []byte
+				for _, b := range o.Bytes {
+					input = append(input, b...)
 				}
-				rec := schema.NewTestRecord2(time.Unix(o.Ints[0], o.Ints[1]), fields)
+				input = append(input, "pad"...)
+				rec, str := alloc.NewRecord(input)
+				off := 0
+				for j, b := range o.Bytes {
+					rec.Fields[j] = str[off : off+len(b)]
+					off += len(b)
+				}
+				rec.Timestamp = time.Unix(o.Ints[0], o.Ints[1])
+				defer alloc.Release(rec)
 				rec.Unescaped = o.Ints[2] == 1
 				stream := append([]byte{}, ser.SerializeRecord(rec)...)
 				// a second output serializes the same record again: it must produce the same bytes (C12)
@@ -167,7 +181,7 @@ func refUnescape(s string) string {
 	return sb.String()
 }
 
-func contains(l []int, v int) bool {
+func containsInt(l []int, v int) bool {
 	for _, x := range l {
 		if x == v {
 			return true
@@ -214,7 +228,7 @@ func (s *serComp) Oracle(c Case, impl []string) string {
 			}
 			for j, name := range cfg.names {
 				v := field(j)
-				if contains(cfg.env, j) || contains(cfg.hidden, j) || v == "" {
+				if containsInt(cfg.env, j) || containsInt(cfg.hidden, j) || v == "" {
 					continue
 				}
 				if chain, ok := cfg.rewrites[j]; ok {
@@ -384,6 +398,9 @@ func (s *serComp) Generate(rng *rand.Rand, n int, emit func(Case)) {
 		if i%7 == 0 {
 			nf = 14 + rng.Intn(6) // around the 15-field boundary of the map header
 		}
+		if i%11 == 0 {
+			nf = 15 // exactly at the 1-byte map header limit
+		}
 		names := make([]string, nf)
 		for j := range names {
 			names[j] = fmt.Sprintf("f%d", j)
@@ -393,6 +410,9 @@ func (s *serComp) Generate(rng *rand.Rand, n int, emit func(Case)) {
 		}
 		perm := rng.Perm(nf)
 		nenv := 1 + rng.Intn(min(3, nf-1))
+		if i%5 == 0 {
+			nenv = 0 // the serializer itself accepts an empty environment list
+		}
 		if i%31 == 0 && nf > 16 {
 			nenv = 16
 		}
@@ -429,10 +449,22 @@ func (s *serComp) Generate(rng *rand.Rand, n int, emit func(Case)) {
 		}
 		ops := []Op{{Name: "ser cfg", Strs: []string{"N=" + strings.Join(hexNames, ","), "E=" + istr(env), "X=" + strings.Join(envNames, ","), "H=" + istr(hidden), "R=" + strings.Join(rws, ";")}}}
 		big := n >= 100000 && i%50 == 0 || i%400 == 3
+		sameLayout := i%3 == 0 // consecutive records with identical field lengths: every value lands at the same offset of the reused buffer
+		var layout []int
 		for k := 0; k < 4; k++ {
 			fields := make([][]byte, nf)
 			for j := range fields {
 				fields[j] = serValue(rng, big)
+				if i%11 == 0 && len(fields[j]) == 0 {
+					fields[j] = []byte("v") // 15-field schema: all fields visible
+				}
+				if sameLayout {
+					if k == 0 {
+						layout = append(layout, len(fields[j]))
+					} else {
+						fields[j] = bytes.Repeat([]byte{byte('a' + (k+j)%26)}, layout[j])
+					}
+				}
 			}
 			sec := rng.Int63n(1 << 32)
 			if rng.Intn(20) == 0 {
@@ -446,6 +478,9 @@ func (s *serComp) Generate(rng *rand.Rand, n int, emit func(Case)) {
 		ops := []Op{{Name: "ser cfg", Strs: []string{"N=" + hx([]byte("host")) + "," + hx([]byte("log")), "E=0", "X=" + hx([]byte("host")), "H=", "R=1:u"}}}
 		ops = append(ops, Op{Name: "ser rec", Ints: []int64{1565873446, 5, 0}, Bytes: [][]byte{bytes.Repeat([]byte("h"), 3<<20), []byte("m\\n")}})
 		ops = append(ops, Op{Name: "ser rec", Ints: []int64{1565873446, 5, 0}, Bytes: [][]byte{[]byte("h"), bytes.Repeat([]byte("m\\n"), 1<<20)}})
+		ops = append(ops, Op{Name: "ser rec", Ints: []int64{1565873446, 5, 0}, Bytes: [][]byte{bytes.Repeat([]byte("H"), 10<<20), []byte("m")}})
 		emit(Case{Ops: ops, Tag: "oversize"})
+		ops2 := []Op{ops[0], {Name: "ser rec", Ints: []int64{1565873446, 5, 0}, Bytes: [][]byte{bytes.Repeat([]byte("H"), 5<<20), []byte("m")}}}
+		emit(Case{Ops: ops2, Tag: "oversize"})
 	}
 }
